@@ -343,7 +343,7 @@ class Evolver:
             # productions that once exposed a defect (kept as a standing floor)
             "message-no-typename", "rust-keyword-name", "base-regexp", "empty-struct-property", "request-no-typename",
             "matrix", "same-name-different-nullness", "shared-registration-method", "diamond",
-            "message-regopts-no-params", "explicit-closed-enum", "and-registration-options", "deep-mixin", "confusing-message-names", "exotic-enum-values", "message-map-keys", "marked-everything", "alias-shapes", "declares-response-error", "method-mentions-request", "literal-name-collision", "big-declarations", "case-only-names", "mutual-recursion", "digit-names", "substring-names", "selection-range-additions", "short-names"]
+            "message-regopts-no-params", "explicit-closed-enum", "and-registration-options", "deep-mixin", "confusing-message-names", "exotic-enum-values", "message-map-keys", "marked-everything", "alias-shapes", "declares-response-error", "method-mentions-request", "literal-name-collision", "big-declarations", "case-only-names", "mutual-recursion", "digit-names", "substring-names", "selection-range-additions", "short-names", "result-name-collision"]
     RUST_AND_PYTHON_KEYWORDS = ["in", "for", "as", "if", "else", "while", "continue", "break", "return", "async", "await", "try", "yield"]
 
     MATRIX_PRODUCTIONS = ["base", "ref-struct", "ref-enum", "ref-alias", "array", "map", "tuple", "ornull-first", "ornull-last", "literal",
@@ -586,6 +586,31 @@ class Evolver:
                     if all(q["name"] != p_["name"] for q in sr[0]["properties"]) and any(s["name"] == "SelectionRangeParams" for s in self.doc["structures"]):
                         sr[0]["properties"].append(p_)
                         self.edits.append({"edit": "E2-new-property", "structure": "SelectionRange", "property": p_["name"], "type": p_["type"], "optional": bool(p_.get("optional"))})
+            return
+        if focus == "result-name-collision":
+            # a request `<X>Request` whose result is built from a declared structure called `<X>Result` (the name the python
+            # plugin gives the alias it invents for a composite result)
+            S_ = {"kind": "base", "name": "string"}
+            for shape in ("array", "array-or-null"):
+                stem = self.fresh_type_name("VfHunt")
+                pn, rn = stem + "Params", stem + "Result"
+                if pn in self.taken_types or rn in self.taken_types:
+                    continue
+                self.taken_types |= {pn, rn}
+                local: set = set()
+                self.doc["structures"].append({"name": pn, "properties": [self.new_property(local, force="base", optional=False)]})
+                self.doc["structures"].append({"name": rn, "properties": [{"name": "vfItem", "type": S_}, self.new_property(local)]})
+                self.keep_inhabitable(self.doc["structures"][-1]["properties"])
+                self.new_structs += [pn, rn]
+                arr = {"kind": "array", "element": {"kind": "reference", "name": rn}}
+                result = arr if shape == "array" else {"kind": "or", "items": [arr, {"kind": "base", "name": "null"}]}
+                self.counter += 1
+                msg = {"method": f"vf/hunt{self.counter}", "typeName": stem + "Request", "messageDirection": "clientToServer",
+                       "params": {"kind": "reference", "name": pn}, "result": result}
+                self.doc["requests"].append(msg)
+                self.edits.append({"edit": "E1-new-structure", "name": pn, "properties": [p_["name"] for p_ in self.doc["structures"][-2]["properties"]]})
+                self.edits.append({"edit": "E1-new-structure", "name": rn, "properties": [p_["name"] for p_ in self.doc["structures"][-1]["properties"]]})
+                self.edits.append({"edit": "E5-new-request", "method": msg["method"], "typeName": msg["typeName"], "params": msg["params"], "result": result, "registrationOptions": None})
             return
         if focus == "short-names":
             # structures and properties of three letters or fewer (name builders that drop short words)
